@@ -20,6 +20,17 @@ handles around reconnects from the same address.
 namespace OntVerif.Props.C36
 open OntVerif.Model.ConnCtl OntVerif.Proofs.ConnCtl
 
+/-- a thread from its address strings: remote address, the listen address the controller derives for it -/
+def mkT (d : Dir) (addr listen : String) (pid : Nat) (f : Fate) : Thread :=
+  { dir := d, addr := addr.toList, listenAddr := listen.toList, pid := pid, fate := f }
+
+/-- `ipOf` is `net.SplitHostPort`'s host on the textual forms the net stack produces; the per-IP statements below
+quantify over arbitrary address strings with this function -/
+example : ipOf "1.2.3.4:80".toList = "1.2.3.4".toList ∧ ipOf "1.2.3.40:80".toList = "1.2.3.40".toList ∧
+    ipOf "[::1]:80".toList = "::1".toList ∧ ipOf "[fe80::1%eth0]:80".toList = "fe80::1%eth0".toList ∧
+    ipOf "[2001:db8::1]:80".toList = "2001:db8::1".toList ∧ ipOf "[::ffff:1.2.3.4]:80".toList = "::ffff:1.2.3.4".toList ∧
+    ipOf "::1:80".toList = [] := by decide
+
 /-- **The property on the controller's counters**: for all configurations, all sets of connection attempts and all
 interleavings of their atomic actions (accepts, dials, handshake outcomes, closes, repeated closes),
 inbound ≤ MaxConnInBound ∧ per-IP inbound ≤ MaxConnInBoundForSingleIP ∧ outbound ≤ MaxConnOutBound. -/
@@ -65,9 +76,9 @@ theorem C36_sound_established : C36_established_full run := by
 
 /-- A connects from 10.0.0.1:5000 and closes; B reconnects from the same address; C comes from another port -/
 def staleThreads : List Thread :=
-  [{ dir := .inb, ip := 1, port := 5000, lport := 20338, pid := 1, fate := .ok },
-   { dir := .inb, ip := 1, port := 5000, lport := 20338, pid := 2, fate := .ok },
-   { dir := .inb, ip := 1, port := 5001, lport := 20338, pid := 3, fate := .ok }]
+  [mkT .inb "10.0.0.1:5000" "10.0.0.1:20338" 1 .ok,
+   mkT .inb "10.0.0.1:5000" "10.0.0.1:20338" 2 .ok,
+   mkT .inb "10.0.0.1:5001" "10.0.0.1:20338" 3 .ok]
 
 /-- A: check, reserve, save, close · B: check, reserve, save · A: Close() AGAIN · C: check, reserve, save -/
 def staleSchedule : List Nat := [0, 0, 0, 0, 1, 1, 1, 0, 2, 2, 2]
@@ -75,21 +86,30 @@ def staleSchedule : List Nat := [0, 0, 0, 0, 1, 1, 1, 0, 2, 2, 2]
 /-- on that schedule the controller keeps B's record and refuses C (limit 1) -/
 example :
     let s := run (init { maxIn := 1, maxIp := 1, maxOut := 1 } staleThreads) staleSchedule
-    s.bound .inb = [(1, 5000)] ∧ s.threads.map (·.pc) = [.closed, .saved, .closed] := by
+    s.bound .inb = ["10.0.0.1:5000".toList] ∧ s.threads.map (·.pc) = [.closed, .saved, .closed] := by
+  decide
+
+/-- the per-IP limit binds IPv6 remotes (bracketed records `[::1]:port`, bare ip `::1`): the second connection from
+`::1` is refused, the one from `::2` admitted -/
+example :
+    let ths := [mkT .inb "[::1]:5000" "::1:20338" 1 .ok, mkT .inb "[::1]:5001" "::1:20338" 2 .ok,
+                mkT .inb "[::2]:5000" "::2:20338" 3 .ok]
+    let s := run (init { maxIn := 3, maxIp := 1, maxOut := 1 } ths) [0, 0, 0, 1, 2, 2, 2]
+    s.threads.map (·.pc) = [.saved, .closed, .saved] ∧ cnt "::1".toList (s.bound .inb) = 1 := by
   decide
 
 /-! ## Non-vacuity: the controller admits connections up to the limits and refuses the racing one -/
 
 /-- two remote peers (different ips), each a well-behaved inbound connection -/
 def twoInbound : List Thread :=
-  [{ dir := .inb, ip := 1, port := 5000, lport := 20338, pid := 1, fate := .ok },
-   { dir := .inb, ip := 2, port := 5001, lport := 20338, pid := 2, fate := .ok }]
+  [mkT .inb "10.0.0.1:5000" "10.0.0.1:20338" 1 .ok,
+   mkT .inb "10.0.0.2:5001" "10.0.0.2:20338" 2 .ok]
 
 /-- T1.check, T2.check, (enter handshakes), T1.save, T2.save -/
 def raceSchedule : List Nat := [0, 1, 0, 1, 0, 1]
 
 /-- on the race schedule the first connection is established and the second refused at its check -/
-example : (run (init { maxIn := 1, maxIp := 3, maxOut := 1 } twoInbound) raceSchedule).bound .inb = [(1, 5000)]
+example : (run (init { maxIn := 1, maxIp := 3, maxOut := 1 } twoInbound) raceSchedule).bound .inb = ["10.0.0.1:5000".toList]
     ∧ ((run (init { maxIn := 1, maxIp := 3, maxOut := 1 } twoInbound) raceSchedule).threads.map (·.pc))
         = [.saved, .closed] := by decide
 
@@ -101,20 +121,20 @@ example : ((run (init { maxIn := 2, maxIp := 3, maxOut := 1 } twoInbound) [0, 1,
 /-- a reservation released by a failed handshake is available again -/
 example :
     let ths : List Thread :=
-      [{ dir := .inb, ip := 1, port := 5000, lport := 20338, pid := 1, fate := .hsFail },
-       { dir := .inb, ip := 1, port := 5001, lport := 20338, pid := 2, fate := .ok }]
-    ((run (init { maxIn := 1, maxIp := 1, maxOut := 1 } ths) [0, 0, 0, 1, 1, 1]).bound .inb) = [(1, 5001)] := by
+      [mkT .inb "10.0.0.1:5000" "10.0.0.1:20338" 1 .hsFail,
+       mkT .inb "10.0.0.1:5001" "10.0.0.1:20338" 2 .ok]
+    ((run (init { maxIn := 1, maxIp := 1, maxOut := 1 } ths) [0, 0, 0, 1, 1, 1]).bound .inb) = ["10.0.0.1:5001".toList] := by
   decide
 
 /-- a refused duplicate dial does not touch the reservation of the dial in flight: a third dial to another address
 still finds the only slot taken (the regression seeded against 280bc886) -/
 example :
     let ths : List Thread :=
-      [{ dir := .outb, ip := 1, port := 20338, lport := 20338, pid := 1, fate := .ok },
-       { dir := .outb, ip := 1, port := 20338, lport := 20338, pid := 2, fate := .ok },
-       { dir := .outb, ip := 2, port := 20338, lport := 20338, pid := 3, fate := .ok }]
+      [mkT .outb "10.0.0.1:20338" "10.0.0.1:20338" 1 .ok,
+       mkT .outb "10.0.0.1:20338" "10.0.0.1:20338" 2 .ok,
+       mkT .outb "10.0.0.2:20338" "10.0.0.2:20338" 3 .ok]
     let s := run (init { maxIn := 1, maxIp := 1, maxOut := 1 } ths) [0, 0, 1, 2, 0]
-    s.threads.map (·.pc) = [.saved, .closed, .closed] ∧ s.bound .outb = [(1, 20338)] := by
+    s.threads.map (·.pc) = [.saved, .closed, .closed] ∧ s.bound .outb = ["10.0.0.1:20338".toList] := by
   decide
 
 /-! ## HISTORICAL: the controller before commit 471ac830 (`stepStaleHist`) — every `Close()` ran `removePeer` -/
@@ -153,13 +173,13 @@ def C36_full_historical : Prop :=
 
 /-- two connections from the same remote ip -/
 def twoSameIp : List Thread :=
-  [{ dir := .inb, ip := 1, port := 5000, lport := 20338, pid := 1, fate := .ok },
-   { dir := .inb, ip := 1, port := 5001, lport := 20339, pid := 2, fate := .ok }]
+  [mkT .inb "10.0.0.1:5000" "10.0.0.1:20338" 1 .ok,
+   mkT .inb "10.0.0.1:5001" "10.0.0.1:20339" 2 .ok]
 
 /-- two dials to different addresses -/
 def twoOutbound : List Thread :=
-  [{ dir := .outb, ip := 1, port := 20338, lport := 20338, pid := 1, fate := .ok },
-   { dir := .outb, ip := 2, port := 20338, lport := 20338, pid := 2, fate := .ok }]
+  [mkT .outb "10.0.0.1:20338" "10.0.0.1:20338" 1 .ok,
+   mkT .outb "10.0.0.2:20338" "10.0.0.2:20338" 2 .ok]
 
 /-- inbound limit 1, witness `S:1:3:1:* i0.1.5000.20338.1.ok;i1.2.5001.20338.2.ok;i0…;i1…` (corpus/C36: a reversion
 of 280bc886 is a VIOLATION) -/
@@ -174,7 +194,7 @@ theorem C36_historical_counterexample_perIp :
     ¬ ∀ (cfg : Cfg) (ths : List Thread) (sched : List Nat), (∀ t ∈ ths, t.pc = .start) →
         ∀ ip, cnt ip ((runHist (init cfg ths) sched).bound .inb) ≤ cfg.maxIp := by
   intro h
-  have := h { maxIn := 3, maxIp := 1, maxOut := 3 } twoSameIp raceSchedule (by decide) 1
+  have := h { maxIn := 3, maxIp := 1, maxOut := 3 } twoSameIp raceSchedule (by decide) "10.0.0.1".toList
   revert this
   decide
 
@@ -192,8 +212,8 @@ set entry (model-only: no I/O separates the check from `tryAddConnecting`, the h
 reservation of 280bc886 closes this too: the second check sees the pending address (`dup`). -/
 theorem C36_historical_sameAddr_undercount :
     let ths : List Thread :=
-      [{ dir := .outb, ip := 1, port := 20338, lport := 20338, pid := 1, fate := .ok },
-       { dir := .outb, ip := 1, port := 20338, lport := 20338, pid := 1, fate := .ok }]
+      [mkT .outb "10.0.0.1:20338" "10.0.0.1:20338" 1 .ok,
+       mkT .outb "10.0.0.1:20338" "10.0.0.1:20338" 1 .ok]
     let s := runHist (init { maxIn := 1, maxIp := 1, maxOut := 1 } ths) [0, 1, 0, 0, 1, 1]
     (s.bound .outb).length = 1 ∧ established s .outb = 2 := by
   decide
